@@ -436,9 +436,18 @@ def gen_synth_part(rng, lf_any_leader=False):
         else:
             dirs, _ = classes.shape_stack(rng, r, extents[r], max_levels=2, symbolic_p=0.0)
         part[r] = dirs
+    lead_merge = rng.random() < 0.2
+    if lead_merge:
+        # one occupancy level led by the tensor that is merged afterwards, split in front of the loop nest
+        t_lead = rng.choice(["A", "B"])
+        r_lead = rng.choice(decl[t_lead])
+        part = {r_lead: ["uniform_occupancy(%s.%d)" % (t_lead, rng.choice([1, 2, 3]))]}
     spec["partitioning"] = {"Z": part}
     groups = [classes.levels_of(r, len(part[r])) if r in part else [r] for r in ["M", "N", "K"]]
     lo = classes.loop_order_over(rng, groups, "ordered")
+    if lead_merge:
+        lo.remove(r_lead + "1")
+        lo.insert(0, r_lead + "1")
     spec["loop_order"] = {"Z": lo}
     k = rng.randint(0, 1)
     space = [lo[rng.randrange(1, len(lo))]] if k and len(lo) > 1 else []
@@ -466,12 +475,14 @@ def gen_synth_part(rng, lf_any_leader=False):
                 # (same depth below the rank: see gen_synth)
                 b["leader"] = rng.choice(["A", "B"])
         bl.append({"component": c, "bindings": [b]})
-    if rng.random() < 0.5:
+    if rng.random() < 0.5 or lead_merge:
         # hardware merger bound to a tensor that is partitioned before the merge: init-ranks name partition levels
         # ... statically: a merger on a tensor that is split inside the loop nest (uniform_occupancy) is known
         # finding MERGER-DYNPART (the init-ranks never exist together; witness only)
         static = [t for t in ("A", "B") if _merge_ok(t, decl, part, lo)]
         t = rng.choice(static) if static else "A"
+        if lead_merge and t_lead in static:
+            t = t_lead
         init = []
         for r in decl[t]:
             init.extend(classes.levels_of(r, len(part[r])) if r in part else [r])
